@@ -31,7 +31,15 @@ def B(op, l, r):
 class Gen:
     def __init__(self, rng, profile):
         self.r = rng
-        self.p = profile
+        self.p = dict(profile)
+        self.sall = None
+        if self.p.get("samesign"):
+            # the region in which Python-int bound inference and the solver's reading of a comparison agree:
+            # one signedness for everything, no wrap-around (see known finding F21)
+            self.sall = rng.random() < 0.5
+            self.p["arops"] = ["add", "sub"] if self.sall else ["add", "and", "or", "srl", "mul"]
+            if not self.sall:
+                self.p["enum"] = 0.0
 
     def fields(self):
         r = self.r
@@ -46,7 +54,7 @@ class Gen:
                 out.append({"name": "f%d" % i, "w": 32, "s": True, "rand": rand, "val": r.choice(vals), "enums": vals})
                 continue
             w = r.choice(BIG_W) if (big and r.random() < 0.5) else r.choice(SMALL_W)
-            s = r.random() < 0.35
+            s = r.random() < 0.35 if self.sall is None else self.sall
             rand = r.random() < 0.75
             if rand and not big and bits + w > 13:
                 w = max(1, 13 - bits)
@@ -70,26 +78,35 @@ class Gen:
         if x < 0.8:
             i = r.randrange(len(fs))
             f = fs[i]
-            if not f["enums"] and f["w"] > 1 and r.random() < 0.12:
+            if not f["enums"] and f["w"] > 1 and r.random() < 0.12 and self.sall is None:
                 hi = r.randrange(f["w"])
                 if r.random() < 0.4:
                     return {"k": "psel", "e": F(i), "hi": hi, "lo": hi, "bit": True}
                 lo = r.randint(0, hi)
                 return {"k": "psel", "e": F(i), "hi": hi, "lo": lo}
             return F(i)
-        w = r.choice([1, 2, 4, 8, 32])
-        s = r.random() < 0.4
+        w = r.choice([1, 2, 4, 8, 32]) if self.sall is None else 32
+        s = r.random() < 0.4 if self.sall is None else self.sall
         lo, hi = (-(1 << (w - 1)), (1 << (w - 1)) - 1) if s else (0, (1 << w) - 1)
         return {"k": "lit", "v": r.randint(lo, min(hi, lo + 40)), "s": s, "w": w}
 
     def leaf_right(self, fs):
         r = self.r
         if r.random() < 0.5:
+            if self.sall is False:
+                return I(r.choice([0, 1, 2, 3, 5, 7, 8, 15, 16, r.randint(0, 40)]))
             return I(r.choice([0, 1, 2, 3, 5, 7, 8, 15, 16, -1, -2, r.randint(-8, 40)]))
         return self.leaf_left(fs)
 
     def arith(self, fs, d, left=True):
         r = self.r
+        if self.sall is not None:
+            # no wrap-around: arithmetic only against an int literal (32-bit context), one level deep
+            x = self.leaf_left(fs) if left else self.leaf_right(fs)
+            if d > 0 and r.random() < 0.4 and x.get("k") != "int":
+                op = r.choice(self.p["arops"])
+                return B(op, x, I(r.randint(0, 3)))
+            return x
         if d <= 0 or r.random() < 0.45:
             return self.leaf_left(fs) if left else self.leaf_right(fs)
         op = r.choice(self.p.get("arops", AR))
@@ -122,6 +139,10 @@ class Gen:
         r = self.r
         i = r.randrange(len(fs))
         e = F(i)
+        if self.sall is not None:
+            if d > 0 and r.random() < 0.3:
+                e = B(r.choice(self.p["arops"]), e, I(r.randint(0, 3)))
+            return e
         if d > 0 and r.random() < 0.4:
             op = r.choice(self.p.get("arops", AR))
             rhs = self.shamt(fs) if op in ("sll", "srl") else self.divisor(fs) if op in ("div", "mod") else self.arith(fs, d - 1, False)
@@ -135,7 +156,7 @@ class Gen:
             if r.random() < 0.5:
                 items.append({"single": self.leaf_right(fs) if r.random() < 0.8 else self.arith(fs, 1)})
             else:
-                a = r.randint(-4, 20)
+                a = r.randint(0 if self.sall is False else -4, 20)
                 b = a + r.randint(0, 6)
                 if r.random() < 0.25:
                     items.append({"lo": self.leaf_left(fs), "hi": self.leaf_right(fs)})
@@ -176,7 +197,47 @@ class Gen:
             if r.random() < 0.2:
                 es[-1] = self.fieldy(fs, 1)
             return {"k": "unique", "es": es}
+        if self.p.get("relational") and r.random() < self.p["relational"]:
+            # top-level relational / in statements against non-random expressions: what bound inference reads
+            i = r.randrange(len(fs))
+            nr = [j for j, f in enumerate(fs) if not f["rand"]]
+            x = r.random()
+            if x < 0.3:
+                return {"k": "expr", "e": {"k": "in", "e": F(i), "rl": self.rangelist([fs[j] for j in nr] or fs[:1]) if False else self.const_rangelist(fs, nr)}}
+            rhs = self.nonrand_expr(fs, nr)
+            e = B(r.choice(["lt", "le", "gt", "ge", "eq"]), F(i), rhs)
+            if r.random() < 0.25:
+                e = B({"lt": "gt", "le": "ge", "gt": "lt", "ge": "le", "eq": "eq"}[e["op"]], rhs if rhs["k"] != "int" else F(r.randrange(len(fs))), F(i))
+            return {"k": "expr", "e": e}
         return {"k": "expr", "e": self.boolean(fs, self.p.get("depth", 2))}
+
+    def nonrand_expr(self, fs, nr):
+        r = self.r
+        x = r.random()
+        lo = 0 if self.sall is False else -6
+        if x < 0.35 or not nr:
+            if r.random() < 0.3:
+                return F(r.randrange(len(fs)))      # another field: variable-variable propagators
+            return I(r.randint(lo, 20))
+        j = r.choice(nr)
+        if x < 0.6:
+            return F(j)
+        op = r.choice(self.p.get("arops", ["add"]))
+        return B(op, F(j), I(r.randint(0, 4)))
+
+    def const_rangelist(self, fs, nr):
+        r = self.r
+        items = []
+        lo = 0 if self.sall is False else -6
+        for _ in range(r.randint(1, 3)):
+            if r.random() < 0.5:
+                a = r.randint(lo, 14)
+                items.append({"lo": I(a), "hi": I(a + r.randint(0, 7))})
+            elif nr and r.random() < 0.4:
+                items.append({"single": B("add", F(r.choice(nr)), I(r.randint(0, 3)))})
+            else:
+                items.append({"single": I(r.randint(lo, 15))})
+        return items
 
     def soft_expr(self, fs):
         r = self.r
@@ -199,6 +260,8 @@ class Gen:
 
 
 # ----------------------------------------------------------------------------- execution / comparison
+
+OPTS = {"bounds": False}
 
 def scenario_requests(S, scn):
     """run the scenario on the real library; returns per call the observation and the pvdrv request"""
@@ -232,7 +295,11 @@ def scenario_requests(S, scn):
         if call.get("inline") is not None:
             tops = tops + call["inline"]
         req = {"op": "z.call", "fields": fields, "tops": tops, "rec": recs, "enumLimit": 13,
-               "implFinal": after if outcome == "ok" else None}
+               "implFinal": after if outcome == "ok" else None,
+               "draws": [list(d) for d in draws],
+               "implBounds": {k: [list(r) for r in v] for k, v in bounds.items()} if OPTS["bounds"] else None,
+               "order": [[b, a] for s in tops if s["k"] == "solve_order" for b in s["before"] for a in s["after"]]}
+        req["tops"] = [s for s in tops if s["k"] != "solve_order"]
         out.append({"call": call, "before": before, "after": after, "outcome": outcome, "exc": exc,
                     "obs": obs, "uncon": uncon, "bounds": bounds, "n_btors": len(btors), "req": req, "draws": draws})
     return out
@@ -304,6 +371,33 @@ def compare_call(S, scn, ci, c, m):
             break
     if model_outcome != c["outcome"]:
         cf("outcome", model_outcome, c["outcome"])
+    if OPTS["bounds"] and "bounds" in c:
+        # inferred ranges, unconstrained draws, swizzle candidates (C14 / C20)
+        ib = {k: [list(r) for r in v] for k, v in c["bounds"].items() if k in names}
+        mb = {k: v for k, v in m["bounds"].items() if k in ib}
+        if mb != ib and not m["boundsErr"]:
+            bad = sorted(k for k in ib if mb.get(k) != ib[k])
+            cf("bounds", {k: mb.get(k) for k in bad}, {k: ib[k] for k in bad})
+        for k, (a, b) in enumerate(zip(mr, ir)):
+            rec = b["rec"]
+            if rec is None or not rec["shape_ok"] or rec["answers"][0] == "unsat":
+                continue
+            impl_groups = [[S.sexp(t) for t in g] for g in rec["groups"]]
+            mod_groups = [g for g in a["cands"]]
+            # a group without candidates still ends with a Sat(); the model lists non-empty field groups only
+            if [g for g in impl_groups if g] != [g for g in mod_groups if g]:
+                cf("randset[%d].swizzle-candidates" % k, mod_groups, impl_groups)
+            if b["rs"]["order"] != a.get("order"):
+                cf("randset[%d].order-groups" % k, a.get("order"), b["rs"]["order"])
+            st["swizzle_candidates"] = st.get("swizzle_candidates", 0) + sum(len(g) for g in impl_groups)
+        if c["outcome"] == "ok":
+            if not m["drawsOkAll"] or m["drawsLeft"] != 0:
+                cf("draws", {"ok": m["drawsOkAll"], "left": m["drawsLeft"]}, len(c.get("draws", [])))
+            for nm, v in m["unconVals"]:
+                iv = c["after"][names.index(nm)]
+                if iv != v:
+                    cf("unconstrained." + nm, v, iv)
+        st["draws"] = len(c.get("draws", []))
     # ---- final values (model read-back vs attribute reads)
     if c["outcome"] == "ok":
         for a in mr:
@@ -322,6 +416,9 @@ def compare_call(S, scn, ci, c, m):
                    "every random field inside its declared type / enumerators")
             if a["specSat"] is False:
                 of("returned-but-unsatisfiable", {"randset": a["fields"]}, "SolveFailure (no assignment satisfies the hard constraints)")
+            if OPTS["bounds"] and a.get("starved"):
+                of("feasible-value-outside-inferred-range", {"starved": a["starved"], "bounds": {n: c["bounds"].get(n) for n in a["fields"]}},
+                   "the inferred range of a field contains every value it takes in some solution")
             if a["softHonoured"] is False:
                 of("soft-not-greedy-maximal", {"values": dict(zip(names, c["after"])), "reference_kept": a["softRef"], "soft": a["soft"]},
                    "returned values satisfy every soft constraint the greedy-by-priority reference keeps")
@@ -329,6 +426,15 @@ def compare_call(S, scn, ci, c, m):
             of("statement-without-field-dropped", {"top_level_statements": m["droppedFail"]}, "every active hard constraint holds")
         if m["nonrandChanged"]:
             of("nonrandom-field-changed", m["nonrandChanged"], "non-random fields keep their values")
+        if OPTS["bounds"]:
+            for nm in m["unconstrained"]:
+                f = scn["fields"][names.index(nm)]
+                if f.get("enums"):
+                    full = [[v, v] for v in sorted(f["enums"])]
+                else:
+                    full = [[-(1 << (f["w"] - 1)), (1 << (f["w"] - 1)) - 1]] if f["s"] else [[0, (1 << f["w"]) - 1]]
+                if [list(r) for r in c["bounds"].get(nm, full)] != full:
+                    of("unmentioned-field-range-narrowed", {"field": nm, "bounds": c["bounds"].get(nm)}, full)
     elif c["outcome"] == "solveFailure":
         # find the failing rand set in the model and ask the reference whether it has a solution
         for a, b in zip(mr, ir):
@@ -467,6 +573,8 @@ WITNESSES = {
     # id: (property, scenario, predicate on (call observation, model answer) -> bool)
     "F17": ("C02", one_call([fld("a", 4)], [{"k": "expr", "e": B("eq", {"k": "lit", "v": 1, "s": False, "w": 32}, I(0))}]),
             lambda c, m: c["outcome"] == "ok" and bool(m.get("droppedFail"))),
+    "F21": ("C14", one_call([fld("a", 4)], [{"k": "expr", "e": B("lt", F(0), I(-2))}]),
+            lambda c, m: c["outcome"] == "ok" and any(r.get("starved") for r in m["randsets"])),
     "F33": ("C02", one_call([fld("a", 8), fld("c", 8, rand=False, val=0), fld("d", 8, rand=False, val=9)],
                             [{"k": "expr", "e": B("lt", F(0), B("div", F(2), F(1)))}]),
             lambda c, m: c["outcome"] == "exception" and "ZeroDivisionError" in (c["exc"] or "")),
@@ -543,7 +651,8 @@ def replay_file(ck, prop, path):
     run(ck, prop, 0, {}, jobs=1, extra=[case])
 
 
-def standard_main(prop, modules, theorems, profile, n_quick, n_thorough, assumptions, rule, extra=None, argv=None):
+def standard_main(prop, modules, theorems, profile, n_quick, n_thorough, assumptions, rule, extra=None, argv=None, bounds=False):
+    OPTS["bounds"] = bounds
     tier, seed, replay = common.parse_args(argv if argv is not None else sys.argv[1:])
     ck = common.Check(prop, tier, seed, modules)
     obligations = common.obligations_for(modules)
